@@ -12,6 +12,22 @@ Jacobians; every (inputs subset, outputs subset); two and three successive reque
 at the same point, at a moved point and after moving ONE chain input, so that the sub-disciplines that do not
 read it are served by their caches; the process with its own full cache linearized at a former point).
 
+Sharing axes (parts P7-P9).  The statement quantifies over the histories of requests *on the process* and says
+nothing of who else uses its disciplines, so the uses below are inside the quantifier: linearize(x) must
+return the Jacobian at x whatever the local data / caches of the sub-discipline instances hold by then.
+  P7  a second process B built on the SAME discipline instances (twin, reversed chain, parallel chain, chain of
+      one of them) executes / linearizes at another point between two steps of the process A; both are checked.
+  P8  a sub-discipline is executed / linearized on its own between two steps of the process.
+  P9  one instance at several positions of an MDOChain ([d, e, d], [d, d, e], [d, e, e], [d, e, d, f], ...,
+      chain[chain[d, e], d]): the chain computes the composition of its positions
+      (tests/disciplines/scenario_adapters/test_scenario_adapter.py::test_chain uses MDOChain([mda, adapter, mda])).
+Oracle boundaries of these axes: only *elementary* disciplines are shared / used on their own (a shared
+sub-PROCESS linearized by its parent without re-execution after having run elsewhere is the mechanism of the
+registered own-full-cache finding); an instance is repeated only inside MDOChain (under MDOParallelChain /
+MDOAdditiveChain it would run in two threads at once; for MDAChain the coupling graph of the instances is
+cyclic, i.e. an MDA: C06/C07); nothing is asserted on the results of a sub-discipline used on its own (an
+exception there is reported as 'sub-discipline-use-raises': the history cannot go on, never a silent pass).
+
 Oracle: *forward* accumulation in the harness (gemseo accumulates in reverse): d(value)/d(process inputs)
 is propagated through the execution order, replaced on overwrite.  The harness disciplines are polynomial
 with small integer coefficients and are evaluated at integer points, so every partial, every product and
@@ -335,9 +351,20 @@ def tree_kind(tree):
     if tree[0] == "mda":
         return "mda" if tree[2].get("chain_linearize", True) else "mda-adjoint"
     inner = [tree_kind(ch) for ch in tree[1]]
+    flat = leaves(tree)
+    if len(set(flat)) < len(flat):
+        # one instance at several positions: the positions are part of the kind, e.g. 'chain[D0,D1,D0]',
+        # 'chain[chain[D0,D1],D0]'
+        return _kind_with_positions(tree)
     if all(x == "D" for x in inner):
         return tree[0]
     return f"{tree[0]}[{','.join(inner)}]"
+
+
+def _kind_with_positions(node):
+    if isinstance(node, int):
+        return f"D{node}"
+    return f"{node[0]}[{','.join(_kind_with_positions(ch) for ch in node[1])}]"
 
 
 def point(points, pt, ins, sizes):
@@ -371,87 +398,137 @@ def _execute_case(case, g):
     points = POINT_TABLES[table % len(POINT_TABLES)]
     ins, outs = tree_io(tree, specs)
     bad, obs = [], {"inputs": ins, "outputs": outs, "steps": []}
-    try:
-        proc = build(tree, discs)
-    except Exception as e:  # construction refused: an oracle boundary should have excluded the case
-        return [("construction-raises", {"error": type(e).__name__}, f"{type(e).__name__}: {str(e)[:200]}")], obs
-    got_in = list(proc.io.input_grammar)
-    got_out = [n for n in proc.io.output_grammar if n != "MDA residuals norm"]
-    if sorted(got_in) != sorted(ins) or sorted(got_out) != sorted(outs):
-        return [("grammar", {}, f"process inputs/outputs {got_in}/{got_out}, harness expects {ins}/{outs}")], obs
+    # the processes of the case: "a" (the one of the existing parts) and, optionally, "b": a second process built
+    # on the SAME discipline instances (part P7)
+    procs = {}
+    for tag, tr in (("a", tree), ("b", case.get("tree_b"))):
+        if tr is None:
+            continue
+        p_ins, p_outs = tree_io(tr, specs)
+        try:
+            proc = build(tr, discs)
+        except Exception as e:  # construction refused: an oracle boundary should have excluded the case
+            return [("construction-raises", {"error": type(e).__name__}, f"{type(e).__name__}: {str(e)[:200]}")], obs
+        got_in = list(proc.io.input_grammar)
+        got_out = [n for n in proc.io.output_grammar if n != "MDA residuals norm"]
+        if sorted(got_in) != sorted(p_ins) or sorted(got_out) != sorted(p_outs):
+            return [("grammar", {}, f"process {tag} inputs/outputs {got_in}/{got_out}, harness expects {p_ins}/{p_outs}")], obs
+        procs[tag] = {"proc": proc, "tree": tr, "ins": p_ins, "outs": p_outs, "req_in": [], "req_out": []}
     if case.get("cache") == "full":
         # the PROCESS gets its own full cache (as in a DOE / an optimization): a former point is served by it
-        proc.set_cache(proc.CacheType.MEMORY_FULL, is_memory_shared=False)
-    req_in, req_out = [], []
+        procs["a"]["proc"].set_cache(procs["a"]["proc"].CacheType.MEMORY_FULL, is_memory_shared=False)
     for step in case["history"]:
-        x = point(points, step.get("pt", 0), ins, sizes)
-        _, _, ref_val, ref_jac, bound = reference(tree, specs, bodies, sizes, x)
-        if step.get("exec"):  # execution only: the values must be the ones of the function
+        if "sub" in step:
+            # a sub-discipline is used on its own (part P8), outside any process: nothing of it is checked (an
+            # elementary discipline is not the subject of C09), it only moves the local data / cache of the instance
+            d = discs[step["sub"]]
+            xk = point(points, step.get("pt", 0), specs[step["sub"]][0], sizes)
             try:
-                data = proc.execute({n: v.copy() for n, v in x.items()})
+                if step.get("exec"):
+                    d.execute({n: v.copy() for n, v in xk.items()})
+                else:
+                    d.linearize({n: v.copy() for n, v in xk.items()}, compute_all_jacobians=True)
             except Exception as e:
-                bad.append(("execute-raises", {"error": type(e).__name__}, f"step {step}: {type(e).__name__}: {str(e)[:300]}"))
+                bad.append(("sub-discipline-use-raises", {"error": type(e).__name__}, f"step {step}: {type(e).__name__}: {str(e)[:300]}"))
                 break
-            for o in outs:
-                v = data.get(o)
-                if v is None or np.shape(v) != ref_val[o].shape or not np.array_equal(np.asarray(v, dtype=float), ref_val[o]):
-                    bad.append(("value", {}, f"step {step}: output {o} = {None if v is None else np.asarray(v).tolist()} expected {ref_val[o].tolist()}"))
-            obs["steps"].append("executed")
+            obs["steps"].append("sub-discipline used")
             continue
-        try:
-            if step.get("all"):
-                jac = proc.linearize({n: v.copy() for n, v in x.items()}, compute_all_jacobians=True)
-                want_in, want_out = ins, outs
-            else:
-                proc.add_differentiated_inputs(list(step["in"]))
-                proc.add_differentiated_outputs(list(step["out"]))
-                req_in += [n for n in step["in"] if n not in req_in]
-                req_out += [n for n in step["out"] if n not in req_out]
-                jac = proc.linearize({n: v.copy() for n, v in x.items()})
-                want_in, want_out = req_in, req_out
-        except Exception as e:
-            bad.append(("linearize-raises", {"error": type(e).__name__}, f"step {step}: {type(e).__name__}: {str(e)[:300]}"))
-            obs["steps"].append("raised " + type(e).__name__)
+        rec = procs[step.get("on", "a")]
+        n_bad = len(bad)
+        go_on = _process_step(step, rec, specs, bodies, sizes, points, bad, obs)
+        if step.get("on", "a") == "b":  # the wrong result is the one of the second process
+            bad[n_bad:] = [(inv, {**detail, "failing": "second-process"}, msg) for inv, detail, msg in bad[n_bad:]]
+        if not go_on:
             break
-        sobs = {}
-        for o in want_out:
-            for u in want_in:
-                blk = jac[o].get(u) if o in jac else None
-                if blk is None:
-                    bad.append(("missing-block", {}, f"step {step}: no block d{o}/d{u}"))
-                    continue
-                try:
-                    arr, _form = materialize(blk)
-                except Exception as e:
-                    bad.append(("block-unusable", {"error": type(e).__name__}, f"step {step}: d{o}/d{u}: {type(e).__name__}: {str(e)[:200]}"))
-                    continue
-                exp = ref_jac[o][u]
-                sobs[f"d{o}/d{u}"] = arr.tolist()
-                if arr.shape != exp.shape:
-                    bad.append(("block-shape", {"structural_zero": bound[o][u] == 0.0}, f"step {step}: d{o}/d{u} has shape {arr.shape}, expected {exp.shape}"))
-                elif not np.all(np.abs(arr - exp) <= TOL_REL * max(1.0, bound[o][u])):
-                    bad.append((
-                        "jacobian-block",
-                        {"structural_zero": bound[o][u] == 0.0},
-                        f"step {step}: d{o}/d{u} = {arr.tolist()} expected {exp.tolist()} at x={ {n: v.tolist() for n, v in x.items()} }",
-                    ))
-        # Values (harness sanity: a mismatch means the reference semantics differ from the process, so the
-        # Jacobian verdict would be meaningless).  linearize() restores the *input* value of a name that is
-        # both an input and an output, so only pure outputs are compared.
+    return bad, obs
+
+
+def _process_step(step, rec, specs, bodies, sizes, points, bad, obs):
+    """One execution / linearization request on a process, compared with the reference at the requested point.
+    Returns False when the history cannot go on (the call raised)."""
+    proc, tree, ins, outs = rec["proc"], rec["tree"], rec["ins"], rec["outs"]
+    req_in, req_out = rec["req_in"], rec["req_out"]
+    x = point(points, step.get("pt", 0), ins, sizes)
+    _, _, ref_val, ref_jac, bound = reference(tree, specs, bodies, sizes, x)
+    if step.get("exec"):  # execution only: the values must be the ones of the function
+        try:
+            data = proc.execute({n: v.copy() for n, v in x.items()})
+        except Exception as e:
+            bad.append(("execute-raises", {"error": type(e).__name__}, f"step {step}: {type(e).__name__}: {str(e)[:300]}"))
+            return False
         for o in outs:
-            if o in ins:
-                continue
-            v = proc.io.data.get(o)
+            v = data.get(o)
             if v is None or np.shape(v) != ref_val[o].shape or not np.array_equal(np.asarray(v, dtype=float), ref_val[o]):
                 bad.append(("value", {}, f"step {step}: output {o} = {None if v is None else np.asarray(v).tolist()} expected {ref_val[o].tolist()}"))
-        obs["steps"].append(sobs)
-    return bad, obs
+        obs["steps"].append("executed")
+        return True
+    try:
+        if step.get("all"):
+            jac = proc.linearize({n: v.copy() for n, v in x.items()}, compute_all_jacobians=True)
+            want_in, want_out = ins, outs
+        else:
+            proc.add_differentiated_inputs(list(step["in"]))
+            proc.add_differentiated_outputs(list(step["out"]))
+            req_in += [n for n in step["in"] if n not in req_in]
+            req_out += [n for n in step["out"] if n not in req_out]
+            jac = proc.linearize({n: v.copy() for n, v in x.items()})
+            want_in, want_out = req_in, req_out
+    except Exception as e:
+        bad.append(("linearize-raises", {"error": type(e).__name__}, f"step {step}: {type(e).__name__}: {str(e)[:300]}"))
+        obs["steps"].append("raised " + type(e).__name__)
+        return False
+    sobs = {}
+    for o in want_out:
+        for u in want_in:
+            blk = jac[o].get(u) if o in jac else None
+            if blk is None:
+                bad.append(("missing-block", {}, f"step {step}: no block d{o}/d{u}"))
+                continue
+            try:
+                arr, _form = materialize(blk)
+            except Exception as e:
+                bad.append(("block-unusable", {"error": type(e).__name__}, f"step {step}: d{o}/d{u}: {type(e).__name__}: {str(e)[:200]}"))
+                continue
+            exp = ref_jac[o][u]
+            sobs[f"d{o}/d{u}"] = arr.tolist()
+            if arr.shape != exp.shape:
+                bad.append(("block-shape", {"structural_zero": bound[o][u] == 0.0}, f"step {step}: d{o}/d{u} has shape {arr.shape}, expected {exp.shape}"))
+            elif not np.all(np.abs(arr - exp) <= TOL_REL * max(1.0, bound[o][u])):
+                bad.append((
+                    "jacobian-block",
+                    {"structural_zero": bound[o][u] == 0.0},
+                    f"step {step}: d{o}/d{u} = {arr.tolist()} expected {exp.tolist()} at x={ {n: v.tolist() for n, v in x.items()} }",
+                ))
+    # Values (harness sanity: a mismatch means the reference semantics differ from the process, so the
+    # Jacobian verdict would be meaningless).  linearize() restores the *input* value of a name that is
+    # both an input and an output, so only pure outputs are compared.
+    for o in outs:
+        if o in ins:
+            continue
+        v = proc.io.data.get(o)
+        if v is None or np.shape(v) != ref_val[o].shape or not np.array_equal(np.asarray(v, dtype=float), ref_val[o]):
+            bad.append(("value", {}, f"step {step}: output {o} = {None if v is None else np.asarray(v).tolist()} expected {ref_val[o].tolist()}"))
+    obs["steps"].append(sobs)
+    return True
+
+
+def _step_token(step):
+    pt = step.get("pt", 0)
+    at = "" if pt == 0 else "@1" if pt == 1 else "@move"
+    if "sub" in step:
+        return ("sub.exec" if step.get("exec") else "sub.lin") + at
+    who = "B" if step.get("on") == "b" else "A"
+    what = "exec" if step.get("exec") else "lin(all)" if step.get("all") else "lin(subset)"
+    return f"{who}.{what}{at}"
 
 
 def history_class(case):
     history = case["history"]
     if case.get("cache") == "full":
         return "own-full-cache"
+    if any("sub" in st or st.get("on") == "b" for st in history):
+        # steps of the process A interleaved with uses of its sub-disciplines by a second process B / on their own
+        return "interleaved: " + " ".join(_step_token(st) for st in history)
     n = sum(1 for st in history if not st.get("exec"))
     if n == 1 and len(history) == 1:
         return "all" if history[0].get("all") else "one-request"
@@ -466,13 +543,20 @@ def run_case(case, tally):
     hclass = history_class(case)
     # non-trivial: a name is overwritten (read or not) or written by several disciplines, or data flows between
     # disciplines and the request is not "all Jacobians" (graph pruning, request histories)
-    nontrivial = shape not in ("plain", "coupled") or (shape == "coupled" and hclass != "all")
-    key = (specs, case["tree"], case["reps"], sorted(case["sizes"].items()), case["history"], case.get("grammar"), case.get("cache"))
+    # ... or a sub-discipline instance is used outside the process between two of its steps (its local data and
+    # cache no longer are what the process left), or one instance occupies several positions of the process
+    flat = leaves(case["tree"])
+    repeated = len(set(flat)) < len(flat)
+    nontrivial = (
+        shape not in ("plain", "coupled") or (shape == "coupled" and hclass != "all") or hclass.startswith("interleaved") or repeated
+    )
+    key = (specs, case["tree"], case["reps"], sorted(case["sizes"].items()), case["history"], case.get("grammar"), case.get("cache"),
+           case.get("tree_b"))
     outcome = "ok" if not bad else "bad:" + ",".join(sorted({b[0] for b in bad}))
     interesting = nontrivial and digest(key)[0] % 128 == 0  # a sparse, deterministic selection for the evidence samples
     tally.case(key, nontrivial=nontrivial, outcome=f"{kind}|{outcome}", sample=case if interesting else None)
     tally.count(f"process:{kind}")
-    tally.count(f"history:{hclass}")
+    tally.count("history:interleaved" if hclass.startswith("interleaved") else f"history:{hclass}")
     tally.count(f"part:{case.get('part', '?')}")
     if not bad:
         return
@@ -490,10 +574,15 @@ def run_case(case, tally):
             sig["harness"] = "nonlinear-only" if nonlinear_only else "linear-too"
         if inv in ("linearize-raises", "block-unusable", "construction-raises") or "op" in rep:
             sig["rep"] = rep
+        if case.get("tree_b"):
+            sig["second_process"] = tree_kind(case["tree_b"])
+        if repeated:
+            sig["instance"] = "at-several-positions"
         tally.violation(
             sig, case,
             f"{inv}: {msg}\n  specs={specs} tree={case['tree']} reps={case['reps']} sizes={case['sizes']}\n  history={case['history']}"
-            + (f" process cache={case['cache']}" if case.get("cache") else ""),
+            + (f" process cache={case['cache']}" if case.get("cache") else "")
+            + (f" second process on the same instances={case['tree_b']}" if case.get("tree_b") else ""),
         )
 
 
@@ -668,6 +757,65 @@ def full_cache_histories(ins, outs):
     return hs
 
 
+# Sub-axes that expose two defects of the unmodified tree, reported with patches (notes/fixes/c09_<key>.diff/.msg,
+# alternative known_findings entries in notes/fixes/c09_known_findings_sharing.json).  As for the additive chain
+# summing inputs, the exposing cases are left out of the alphabet as long as the patch is not applied: set the flag
+# to True once it is (all the cases below are silent on a tree with both patches).
+#   linearize_without_execution_stale_jacobian: foreign uses in which an instance is used twice in a row at one
+#       point (the second use is served by its cache and leaves Discipline._has_jacobian set: the process then
+#       composes the Jacobian loaded for that other point)
+#   chain_repeated_discipline_pruning: requests for a strict subset of inputs/outputs on an MDOChain with one
+#       instance at several positions (the graph of the disciplines has no edge from a discipline to itself)
+ASSUME_FIXED = {"linearize_without_execution_stale_jacobian": True, "chain_repeated_discipline_pruning": True}  # fixes 174931c, 5d4a6d8
+
+
+def interleaved_histories(ins, outs, foreign, rich, foreign_ins=()):
+    """Steps of the process A (at point 0 unless stated) interleaved with *foreign* uses of its sub-discipline
+    instances: foreign(what, pt) is one step of the second process / of a sub-discipline on its own, what in
+    {"exec", "lin"}.  Every history ends with a linearization request on A, whose blocks are checked at the
+    requested point."""
+    single = [([u], [o]) for u in ins for o in outs]
+    a_exec, a_all = {"exec": True}, {"all": True}
+    a_first = {"in": single[0][0], "out": single[0][1]}
+    a_last = {"in": single[-1][0], "out": single[-1][1]}
+    two = single[0] != single[-1]
+    f_exec, f_lin = foreign("exec", 1), foreign("lin", 1)
+    twice = ASSUME_FIXED["linearize_without_execution_stale_jacobian"]
+    if not rich:
+        return [h for h in [
+            # executed, instance moved elsewhere, linearized at the executed point (A is served by its cache and
+            # composes the derivatives without re-executing its disciplines)
+            [a_exec, f_exec, a_all],
+            # one more block asked at the same point after the foreign use (the Jacobian kept by A lacks it)
+            [a_first, f_lin, a_last] if two else [a_exec, f_lin, a_all],
+            # the foreign use ends with a cache hit of the instance (its Jacobian at the foreign point is at hand)
+            [a_first if two else a_exec, f_lin, f_exec, a_all] if twice else None,
+            # A moves to the point of the foreign use (the instance may be served by what the foreign use cached)
+            [a_exec, f_lin, {"all": True, "pt": 1}],
+        ] if h]
+    firsts = [a_exec, a_all] + ([a_first] if two else [])
+    lasts = [a_all, {"all": True, "pt": 1}] + ([a_last] if two else [])
+    f_seqs = [[f_exec], [f_lin], [f_exec, f_exec], [f_exec, f_lin], [f_lin, f_exec], [f_lin, f_lin],
+              [foreign("exec", 0)], [foreign("lin", 0)]]
+    # the second use moves every input but one: the instances reading only that one are served by their caches
+    f_seqs += [[foreign("lin", {"move": u}), foreign("exec", 0)] for u in foreign_ins if len(foreign_ins) > 1]
+    if not twice:
+        f_seqs = [f for f in f_seqs if len(f) == 1]
+    return [[a, *f, z] for a in firsts for f in f_seqs for z in lasts]
+
+
+def foreign_sub(k):
+    return lambda what, pt: {"sub": k, what: True, "pt": pt}
+
+
+def foreign_process(what, pt):
+    return {"on": "b", "exec": True, "pt": pt} if what == "exec" else {"on": "b", "all": True, "pt": pt}
+
+
+REPEATED2 = [["chain", [0, 1, 0]], ["chain", [0, 0, 1]], ["chain", [0, 1, 1]]]
+REPEATED2_NESTED = [["chain", [["chain", [0, 1]], 0]], ["chain", [0, ["chain", [1, 0]]]]]
+REPEATED3 = [["chain", [0, 1, 0, 2]], ["chain", [0, 1, 2, 0]], ["chain", [0, 1, 2, 1]]]
+
 CHAINLIKE = ("chain", "mda")
 PRUNING_KINDS = ("chain", "mda", "chain[chain,D]")
 
@@ -676,11 +824,13 @@ def gen_cases(ctx, table):
     thorough = ctx.thorough
     only = getattr(ctx, "only", None)
 
-    def mk(part, specs, tree, history, reps=None, sizes=S0, grammar="simple", cache=None):
+    def mk(part, specs, tree, history, reps=None, sizes=S0, grammar="simple", cache=None, tree_b=None):
         case = {"part": part, "specs": specs, "tree": tree, "reps": reps or ["dense"] * len(specs), "sizes": sizes,
                 "history": history, "table": table, "grammar": grammar}
         if cache:
             case["cache"] = cache
+        if tree_b:
+            case["tree_b"] = tree_b
         return case
 
     def threaded(tree):
@@ -689,6 +839,9 @@ def gen_cases(ctx, table):
 
     def want(part):
         return not only or part in only.split(",")
+
+    def single_write(specs):
+        return all(len(o) == 1 for _, o in specs)
 
     m2 = 4 if thorough else 2
     comp2 = compositions(2, m2, m2)
@@ -825,6 +978,77 @@ def gen_cases(ctx, table):
                 for h in hs if thorough or not threaded(tree) or tree_kind(tree) in ("par", "add") else hs[:1]:
                     yield mk("P6", specs, tree, h, cache="full")
 
+    # P7  a second process B built on the SAME discipline instances works between two steps of the process A
+    if want("P7"):
+        for specs in canon2_small:
+            for tree in trees_for(specs, thorough):
+                ins, outs = tree_io(tree, specs)
+                kind = tree_kind(tree)
+                if not thorough and kind not in CHAINLIKE and not single_write(specs):
+                    continue  # quick: the nested and thread-based kinds on the single-write representatives
+                partners = [tree]  # the twin: same kind, same instances (and its own sub-processes)
+                if tree[0] in CHAINLIKE:
+                    partners.append(["chain", [1, 0]])  # the instances in the other order
+                if thorough and kind in CHAINLIKE:
+                    partners += [["par", [0, 1]], ["chain", [0]], ["chain", [1]]]
+                for tree_b in partners:
+                    # thorough: the full product of histories for MDOChain/MDAChain and the reversed chain
+                    rich = thorough and kind in CHAINLIKE and tree_b == ["chain", [1, 0]]
+                    hs = interleaved_histories(ins, outs, foreign_process, rich, tree_io(tree_b, specs)[0])
+                    if not thorough:
+                        hs = hs[:2] if kind == "chain" else hs[:1]
+                    for h in hs:
+                        yield mk("P7", specs, tree, h, tree_b=tree_b)
+    # P8  a sub-discipline is used on its own between two steps of the process
+    if want("P8"):
+        for specs in canon2_small:
+            for tree in trees_for(specs, thorough):
+                ins, outs = tree_io(tree, specs)
+                kind = tree_kind(tree)
+                if not thorough and kind not in CHAINLIKE and not single_write(specs):
+                    continue  # quick: the nested and thread-based kinds on the single-write representatives
+                for k in (0, 1):
+                    # thorough: the full product of histories for MDOChain/MDAChain, the quick set for the others
+                    hs = interleaved_histories(ins, outs, foreign_sub(k), thorough and kind in CHAINLIKE)
+                    if not thorough and kind != "chain":
+                        if threaded(tree):  # the thread-based kinds re-execute their disciplines when they linearize
+                            hs = hs[:1] if k == 0 else []
+                        else:  # the 1st history and, for D0, the one ending with a cache hit of the instance
+                            hs = hs[:1] + ([h for h in hs if len(h) == 4] if k == 0 else [])
+                    for h in hs:
+                        yield mk("P8", specs, tree, h)
+    # P9  one instance at several positions of an MDOChain (oracle boundary: not under MDOParallelChain /
+    # MDOAdditiveChain - the same instance would run in two threads at once - nor MDAChain: the coupling graph
+    # of the instances is cyclic, which makes it an MDA, C06/C07)
+    if want("P9"):
+        for specs in canon2_small:
+            for tree in REPEATED2 + REPEATED2_NESTED:
+                ins, outs = tree_io(tree, specs)
+                moved = [{"in": ins[:1], "out": outs[-1:]}, {"all": True, "pt": 1}]
+                if not ASSUME_FIXED["chain_repeated_discipline_pruning"] and tree in REPEATED2:
+                    # all Jacobians, the full request, the same at a moved point
+                    hs = [[{"all": True}], [{"in": ins, "out": outs}], [{"all": True}, {"in": ins, "out": outs, "pt": 1}]]
+                    if not thorough and tree != REPEATED2[0]:
+                        hs = hs[1:2]
+                elif tree == REPEATED2[0]:
+                    if thorough:
+                        hs = histories(ins, outs, 1, pairs="half") + three_calls(ins, outs)
+                    else:  # every other singleton request (checkerboard over inputs x outputs), all, the full one
+                        hs = [h for h in histories(ins, outs, 0) if len(h[0].get("in", "..")) > 1 or len(h[0].get("out", "..")) > 1
+                              or (ins.index(h[0]["in"][0]) + outs.index(h[0]["out"][0])) % 2 == 0] + [moved]
+                elif thorough:
+                    hs = histories(ins, outs, 0) + [moved]
+                else:  # quick: the full request (flat chains) / all Jacobians (nested ones)
+                    hs = [[{"in": ins, "out": outs}]] if tree in REPEATED2 else [[{"all": True}]]
+                for h in hs:
+                    yield mk("P9", specs, tree, h)
+        for specs in compositions(3, 2 if thorough else 1, 1):
+            if is_canonical(specs):
+                for tree in REPEATED3:
+                    ins, outs = tree_io(tree, specs)
+                    pruned = thorough and ASSUME_FIXED["chain_repeated_discipline_pruning"]
+                    for h in histories(ins, outs, 0) if pruned else [[{"all": True}], [{"in": ins, "out": outs}]]:
+                        yield mk("P9", specs, tree, h)
 
 def run(ctx):
     table = ctx.pick([0, 1, 2])
@@ -862,6 +1086,24 @@ def run(ctx):
         "P4": "representatives with <= 2 names per side x " + ("every kind" if th else "every kind but chain[chain,D], chain[par]") + ": " + ("all 8" if th else "5") + " non-dense representation pairs over {dense, csr, JacobianOperator}, "
         + ("all 15 (5 for the thread-based kinds)" if th else "3 (1 for the thread-based kinds)") + " other size assignments in {1,2}^4; 5 representation mixes along 3-discipline chains",
         "P5": "JSON grammars (the default) on the representatives with <= 2 names per side x {chain, par, add, mda}",
+        "P7": "a second process B on the SAME discipline instances works between two steps of the process A (representatives with <= 2 names per side "
+        "x every kind of A" + ("" if th else " - the nested and thread-based kinds on the single-write representatives only") + "; B = the twin of A, for chain-rooted kinds and MDAChain also the reversed chain"
+        + (", for MDOChain/MDAChain also par[D0,D1], chain[D0], chain[D1]" if th else "") + "): "
+        + ("for MDOChain/MDAChain x reversed chain the product {A.exec, A.lin(all), A.lin(first singleton)} x {B.exec, B.lin, their 4 pairs at the other point, "
+           "B.exec / B.lin at the same point, B.lin after moving one input then B.exec} x {A.lin(all), A.lin(all) at B's point, A.lin(last singleton)}; otherwise the 4 histories "
+           "A.exec B.exec A.lin(all) | A.lin(first) B.lin A.lin(last) | A.lin(first) B.lin B.exec A.lin(all) | A.exec B.lin A.lin(all) at B's point"
+           if th else "A.exec B.exec@x1 A.lin(all)@x0 and, for MDOChain, A.lin(first singleton) B.lin(all)@x1 A.lin(last singleton)@x0")
+        + "; the Jacobians of both processes are checked",
+        "P8": "a sub-discipline (each in turn) is executed / linearized on its own between two steps of the process, same compositions and kinds: "
+        + ("for MDOChain/MDAChain the same product of histories as P7, for the others the 4 histories"
+           if th else "MDOChain: A.exec sub.exec@x1 A.lin(all) | A.lin(first) sub.lin@x1 A.lin(last) | A.lin(first) sub.lin@x1 sub.exec@x1 (served by its cache) A.lin(all) | "
+           "A.exec sub.lin@x1 A.lin(all)@x1; other chain-rooted kinds and MDAChain: the 1st and 3rd for D0, the 1st for D1; thread-based kinds: the 1st for D0"),
+        "P9": "one instance at several positions of an MDOChain: representatives with <= 2 names per side as chain[D0,D1,D0] ("
+        + ("singleton/full requests, all Jacobians, the two-request histories of P2 (quick set), three calls" if th else "every other singleton request, the full one, all Jacobians, singleton then all at a moved point")
+        + "), chain[D0,D0,D1], chain[D0,D1,D1], chain[chain[D0,D1],D0], chain[D0,chain[D1,D0]] ("
+        + ("singleton/full requests, all Jacobians, singleton then all at a moved point" if th else "the full request for the flat chains, all Jacobians for the nested ones")
+        + "); three single-write disciplines with " + ("<= 2 reads" if th else "1 read") + " (representatives) as chain[D0,D1,D0,D2], chain[D0,D1,D2,D0], chain[D0,D1,D2,D1] ("
+        + ("singleton/full requests, all Jacobians" if th else "all Jacobians, the full request") + ")",
         "P6": "the PROCESS has its own MemoryFullCache (is_memory_shared=False): representatives with <= 2 names per side x every kind x "
         "{execute(x1); execute(x2); linearize(x1) | linearize a singleton at x1; execute(x2); linearize all at x1}; signature history='own-full-cache', "
         "shape='any' (every process whose outer process is an MDOChain is wrong there: C05/C09 known finding)",
@@ -870,10 +1112,11 @@ def run(ctx):
     }
     return {
         "level": LEVEL,
-        "rule": "one case = (composition of 2-3 harness disciplines over 4 names, process tree, Jacobian representations, sizes, "
-        "history of 1-3 linearization requests / executions, process cache), run on fresh real processes and compared block by block with forward accumulation; non-trivial = a name is "
+        "rule": "one case = (composition of 2-3 harness disciplines over 4 names, process tree (an instance may occupy several positions), Jacobian representations, sizes, "
+        "history of 1-3 linearization requests / executions interleaved with 0-2 uses of its discipline instances by a second process or on their own, process cache), "
+        "run on fresh real processes and compared block by block with forward accumulation; non-trivial = a name is "
         "overwritten (read or not by the writer) or written by several disciplines, or data flows between disciplines and the request "
-        "is not 'all Jacobians'; distinct = distinct case records",
+        "is not 'all Jacobians', or a discipline instance is used outside the process between two of its steps, or occupies several positions; distinct = distinct case records",
         "exhaustive": True,
         "bounds": bounds,
         "assumptions": [
@@ -882,6 +1125,11 @@ def run(ctx):
             "MDOParallelChain/MDOAdditiveChain with threads, free-running (their schedules are C13's subject)",
             "oracle boundaries: MDAChain only on acyclic single-writer compositions; no JacobianOperator blocks under MDOAdditiveChain (builtin sum); "
             "no MDOAdditiveChain summing a name that a discipline reads without writing it (its _execute adds that input value)",
+            "oracle boundaries of the sharing axes: only elementary disciplines are shared between processes / used on their own (not sub-processes); "
+            "an instance is repeated only inside MDOChain (not under the thread-based chains nor MDAChain); the sub-discipline's own results are not checked",
+            "left out of the alphabet until the reported patches are applied (module flags ASSUME_FIXED, currently " + repr(ASSUME_FIXED) + "): foreign uses "
+            "in which an instance is used twice in a row at one point (the second one is served by its cache; the bounds of P7/P8 describe the enumeration with the flag on), "
+            "strict-subset requests on an MDOChain with a repeated instance (the bounds of P9 describe the enumeration with the flag on)",
             "SimpleGrammar for the bulk (speed), JSON grammars on slice P5",
             "representatives = compositions whose names first appear in the order a,b,c,d (>= 1 per renaming class)",
         ],
